@@ -443,11 +443,24 @@ def run(ctx):
            construct="rep_rate", detail=str([show(v) for v in rr_.values()]), analysis="polynomial normal form")
     wk7 = [x for x in ast.walk(it.node) if isinstance(x, ast.BinOp) and poly(x) == {("self._interval",): 7}]
     ctx.ob("C01.UNIT", it, "a weekly step is interval * 7 days", len(wk7) == 2, construct="self._interval * 7", analysis="polynomial normal form")
-    dm = [src(x) for x in ast.walk(it.node) if isinstance(x, ast.Call) and src(x.func) == "divmod" and isinstance(x.args[1], ast.Constant)]
-    want_dm = sorted(["divmod(month, 12)", "divmod(hour + interval, 24)", "divmod(minute + interval, 60)", "divmod(hour + nhours, 24)",
-                      "divmod(second + interval, 60)", "divmod(minute + nminutes, 60)", "divmod(hour, 24)"])
+    # every division of a calendar field by a constant - divmod(X, K), X // K, X % K - uses that field's factor
+    FACTOR = {"month": 12, "hour": 24, "minute": 60, "second": 60}
+    dm = []
+    for x in ast.walk(it.node):
+        if isinstance(x, ast.Call) and src(x.func) == "divmod" and len(x.args) == 2 and isinstance(x.args[1], ast.Constant):
+            num, k = x.args[0], x.args[1].value
+        elif isinstance(x, ast.BinOp) and isinstance(x.op, (ast.FloorDiv, ast.Mod)) and isinstance(x.right, ast.Constant):
+            num, k = x.left, x.right.value
+        else:
+            continue
+        flds = sorted(set(y.id for y in ast.walk(num) if isinstance(y, ast.Name)) & set(FACTOR))
+        if flds:
+            dm.append((tuple(flds), k, src(x)))
+    bad_dm = [t for f_, k, t in dm if len(f_) != 1 or FACTOR[f_[0]] != k]
+    seen_dm = set(f_[0] for f_, k, t in dm if len(f_) == 1)
+    ok_dm = not bad_dm and seen_dm == set(FACTOR)
     ctx.ob("C01.UNIT", it, "carries use the conversion factors 12 (months), 24 (hours), 60 (minutes, seconds) on the matching field",
-           sorted(dm) == want_dm, construct="divmod carries", detail="" if sorted(dm) == want_dm else str(sorted(dm)), analysis="UNIT")
+           ok_dm, construct="divmod carries", detail="" if ok_dm else "wrong factor: %s; fields carried: %s" % (bad_dm, sorted(seen_dm)), analysis="UNIT")
     md_calls = [x for x in ast.walk(it.node) if isinstance(x, ast.Call) and src(x.func).endswith("__mod_distance")]
     okm = sorted((src(k.value) for c in md_calls for k in c.keywords if k.arg == "base")) == ["24", "60", "60"] and all(
         {k.arg: src(k.value) for k in c.keywords}.get("value") + "|" + {k.arg: src(k.value) for k in c.keywords}.get("byxxx") in
